@@ -72,6 +72,8 @@ typedef struct {
     int group, hrr, cred, sig, cauth, resm, legacy;
     int cookie;     /* DTLS, MatrixSSL client: the OpenSSL server demands a HelloVerifyRequest cookie round trip */
     int noems;      /* TLS <= 1.2: OpenSSL does not negotiate extended_master_secret (RFC 7627) => plain RFC 5246 master secret */
+    int declined;   /* resumption cells: before the second connection the SERVER loses what it needs to resume (ticket key replaced,
+                       session cache flushed): it must decline the ticket / id and both must complete a FULL handshake */
 } cell_t;
 
 /* suites compiled into MatrixSSL, with the name OpenSSL knows them by (NULL: OpenSSL does not have it) */
@@ -1078,7 +1080,7 @@ static void run_conn(conn_t *k, int conn, cres_t *r)
     const int *sizes = k->is_dtls ? dtls_sizes : tls_sizes;
     int nsizes = k->is_dtls ? 4 : 5, i, rc;
     static unsigned char pl[40000];
-    int want_resumed = conn == 1;
+    int want_resumed = conn == 1 && !c->declined;
 
     k->o_done = k->o_fatal = k->o_closed = 0;
     k->o_err = 0; k->o_errstr[0] = 0;
@@ -1166,7 +1168,15 @@ static void run_conn(conn_t *k, int conn, cres_t *r)
                 (int) SSL_get_extms_support(k->o), c->noems ? "did not negotiate" : "offered/accepted");
             return;
         }
-        if (want_resumed)
+        if (conn == 1 && c->declined)
+        {
+            if (SSL_session_reused(k->o) || matrixSslIsResumedSession(k->m) == PS_TRUE)
+            {
+                set_res(r, "resumed-although-server-lost-the-state", "SSL_session_reused=%d matrixSslIsResumedSession=%d", SSL_session_reused(k->o), matrixSslIsResumedSession(k->m) == PS_TRUE);
+                return;
+            }
+        }
+        else if (want_resumed)
         {
             int ores = SSL_session_reused(k->o), mres = matrixSslIsResumedSession(k->m) == PS_TRUE;
             if (!ores || !mres)
@@ -1403,6 +1413,28 @@ static int run_cell(const cell_t *c, cres_t *r, char *why, size_t wn, uint32_t *
     {
         run_conn(k, i, r);
         conn_close(k);
+        if (i == 0 && c->declined && !r->symptom[0])
+        {
+            if (c->role == R_MCLI)
+            {
+                /* OpenSSL server: other ticket keys (name, AES key, HMAC key: 16 + 32 + 32 bytes), no cached sessions */
+                unsigned char tk[80];
+                memset(tk, 0x7b, sizeof(tk));
+                SSL_CTX_set_tlsext_ticket_keys(k->octx, tk, sizeof(tk));
+                SSL_CTX_flush_sessions(k->octx, 0x7fffffffL);
+            }
+            else
+            {
+                /* MatrixSSL server: the ticket key is replaced by another one (a second node of a cluster, a rotation) */
+                static const unsigned char name1[16] = "mxv-ticket-key-1", name2[16] = "mxv-ticket-key-2";
+                unsigned char sk[32], hk[32];
+                memset(sk, 0x3c, sizeof(sk)); memset(hk, 0x5d, sizeof(hk));
+                if (matrixSslLoadSessionTicketKeys(k->keys, name2, sk, 32, hk, 32) < 0 || matrixSslDeleteSessionTicketKey(k->keys, (unsigned char *) name1) < 0)
+                {
+                    set_res(r, "INTERNAL:ticket-key-rotation", "could not replace the MatrixSSL session ticket key");
+                }
+            }
+        }
     }
     if (r->symptom[0])
     {
@@ -1445,15 +1477,16 @@ static void cell_human(const cell_t *c, char *out, size_t n)
 {
     snprintf(out, n, "%s %s %s group=%s%s cred=%s sig=%s %s %s%s%s", rname[c->role], ver_name(c->ver), suite_name(c->suite),
         gsel(c), c->hrr ? "+hrr" : "", c10_creds[c->cred].name, sigs[c->sig].name, c->cauth ? "client-auth" : "no-client-auth",
-        mname[c->resm], c->noems ? " no-ems" : (c->cookie ? " cookie-exchange" : ""),
+        c->declined ? (c->resm == M_ID ? "session-id-declined(cache-flushed)" : c->resm == M_TICKET ? "ticket-declined(key-replaced)" : "tls13-psk-declined(key-replaced)") : mname[c->resm],
+        c->noems ? " no-ems" : (c->cookie ? " cookie-exchange" : ""),
         (c->role == R_MSRV && c->ver != V_TLS13) ? (c->legacy ? " openssl-legacy-server-connect" : " openssl-defaults") : "");
 }
 static void cell_desc(const cell_t *c, char *out, size_t n)
 {
     char h[180];
     cell_human(c, h, sizeof(h));
-    snprintf(out, n, "r=%d;v=%d;s=%04x;g=%d;h=%d;k=%d;a=%d;c=%d;m=%d;l=%d;e=%d;q=%d (%s)", c->role, c->ver, c->suite, c->group, c->hrr, c->cred, c->sig,
-        c->cauth, c->resm, c->legacy, c->noems, c->cookie, h);
+    snprintf(out, n, "r=%d;v=%d;s=%04x;g=%d;h=%d;k=%d;a=%d;c=%d;m=%d;l=%d;e=%d;q=%d;d=%d (%s)", c->role, c->ver, c->suite, c->group, c->hrr, c->cred, c->sig,
+        c->cauth, c->resm, c->legacy, c->noems, c->cookie, c->declined, h);
 }
 static int cell_parse(const char *s, cell_t *c)
 {
@@ -1470,6 +1503,8 @@ static int cell_parse(const char *s, cell_t *c)
         c->noems = e ? atoi(e + 3) != 0 : 0;
         e = strstr(s, ";q=");
         c->cookie = e ? atoi(e + 3) != 0 : 0;
+        e = strstr(s, ";d=");
+        c->declined = e ? atoi(e + 3) != 0 : 0;
     }
     if (c->role < 0 || c->role > 1 || c->ver < V_TLS11 || c->ver > V_DTLS12 || c->group < 0 || c->group >= G_N || c->cred < 0 || c->cred >= CR_N ||
         c->sig < 0 || c->sig >= S_N || c->resm < 0 || c->resm >= M_N || !suite_by_id(c->suite))
@@ -2076,6 +2111,13 @@ static void build_cells(void)
                     continue;
                 }
                 add_cell(&c);
+                /* the same resumption cell with a server that has lost the state: the fallback to a full handshake is part
+                   of the wire behaviour too (MatrixSSL server: ticket modes only - its id cache cannot be flushed per key set) */
+                if (resm != M_NONE && !noems && (role == R_MCLI || resm != M_ID))
+                {
+                    c.declined = 1;
+                    add_cell(&c);
+                }
             }
         }
     }
